@@ -4,6 +4,8 @@
      draws == Lean `chk` (== Lean `eval (gen …)`), with `sat` decided by Lean."""
 from __future__ import annotations
 
+import re
+
 from ..common import lean_driver, parse_sexp, sexp
 from . import astcanon, real
 from .model import atom_of, hint_model, obj_model
@@ -77,6 +79,66 @@ def code_tie(hints: list, reg: Registry, preds: dict, conf_names=('default', 'no
                 if d:
                     diffs.append({'hint': repr(h), 'conf': cn, 'where': d, 'real': payload, 'model': mt, 'real_hint': h})
     return n, diffs, skipped
+
+
+PLACEHOLDER = re.compile(r'@\[(\d+)\)!')
+
+
+def bfs_tie(hints: list, conf_names=('default',)):
+    """The placeholder mechanism of make_check_expr (Core/Bfs.lean, theorem `bfs_eq_flat`) against the real run:
+    the snippets the real generator spliced, replayed by the model's breadth-first `run` and by the recursive
+    composition `Node.flat`, must both give the code the real generator returned. -> (n, diffs)"""
+    cs = confs()
+    lines, meta = [], []
+    for h in hints:
+        for cn in conf_names:
+            try:
+                code, _scope, events = real.generated_code_traced(h, cs[cn])
+            except Exception:
+                continue            # hints the generator refuses are judged by the code-level tie
+            if not events:
+                continue
+            chunks: dict = {}
+            visits, ids = [], []
+            ok = True
+            for old, new in events:
+                m = PLACEHOLDER.fullmatch(old)
+                if not m:
+                    ok = False
+                    break
+                items, pos = [], 0
+                for mm in PLACEHOLDER.finditer(new):
+                    if mm.start() > pos:
+                        items.append(['t', chunks.setdefault(new[pos:mm.start()], len(chunks))])
+                    items.append(['h', int(mm.group(1))])
+                    pos = mm.end()
+                if pos < len(new):
+                    items.append(['t', chunks.setdefault(new[pos:], len(chunks))])
+                visits.append([int(m.group(1))] + items)
+                ids.append(int(m.group(1)))
+            if not ok or len(set(ids)) != len(ids):
+                meta.append((h, cn, None, None, 'a spliced placeholder is malformed or was visited twice: ' + repr(ids)))
+                lines.append('(noop)')
+                continue
+            lines.append(sexp(['bfs', ids[0]] + visits))
+            meta.append((h, cn, code, {v: k for k, v in chunks.items()}, None))
+    diffs = []
+    for (h, cn, code, chunks, err), line in zip(meta, lean_driver(lines, 'Bear', exe='beardriver') if lines else []):
+        if err:
+            diffs.append({'tie': 'placeholder mechanism', 'hint': repr(h), 'conf': cn, 'where': err})
+            continue
+        v = parse_sexp(line)
+        if not (isinstance(v, list) and v[0] == 'ok'):
+            diffs.append({'tie': 'placeholder mechanism', 'hint': repr(h), 'conf': cn, 'where': 'model driver refused the trace: ' + line[:200]})
+            continue
+        bfs, flat, holefree = v[1]
+        t_bfs = ''.join(chunks[int(k)] for k in bfs)
+        t_flat = ''.join(chunks[int(k)] for k in flat)
+        if holefree != 'true' or t_bfs != code or t_flat != code:
+            diffs.append({'tie': 'placeholder mechanism', 'hint': repr(h), 'conf': cn,
+                          'where': f'real code differs from the model: holefree={holefree} bfs_equal={t_bfs == code} recursive_equal={t_flat == code}',
+                          'real': code[:400], 'model_bfs': t_bfs[:400]})
+    return len(meta), diffs
 
 
 HYPS = {'checked': 0, 'failed': 0}     # side conditions of the Lean theorems, decided by the driver per case
